@@ -13,6 +13,7 @@ use std::borrow::Borrow;
 use std::hash::{BuildHasher, Hash};
 use std::ptr::NonNull;
 use vstd::std_specs::iter::IteratorSpec;
+use vstd::std_specs::ops::*;
 
 pub type KeyId = int;
 pub uninterp spec fn kid<Q: ?Sized>(q: &Q) -> KeyId;
@@ -395,6 +396,19 @@ impl FrequencySketch {
     pub fn frequency(&self, hash: u64) -> (r: u8) ensures r == self.freq(hash), r <= 15 { unimplemented!() }
     #[verifier::external_body]
     pub fn increment(&mut self, hash: u64) ensures *final(self) == old(self).incremented(hash) { unimplemented!() }
+    /// (re)sizing: forgets all counts or does nothing -- never a recording (contract proved in the sketch unit for cap <= 2^27)
+    pub uninterp spec fn ensured(&self, cap: u32) -> FrequencySketch;
+    #[verifier::external_body]
+    pub fn ensure_capacity(&mut self, cap: u32) ensures *final(self) == old(self).ensured(cap) { unimplemented!() }
+}
+/// f64 `*` and `/` never trap in Rust (vstd leaves their preconditions unspecified)
+pub broadcast axiom fn axiom_f64_mul_ok(a: f64, b: f64) ensures #[trigger] a.mul_req(b);
+pub broadcast axiom fn axiom_f64_div_ok(a: f64, b: f64) ensures #[trigger] a.div_req(b);
+pub mod common {
+    use vstd::prelude::*;
+    /// `max_capacity.try_into().unwrap_or(u32::MAX).max(128)`: Kani leaf harness `leaf_sketch_capacity`
+    #[verifier::external_body]
+    pub fn sketch_capacity(max_capacity: u64) -> (r: u32) ensures r >= 128 { unimplemented!() }
 }
 } // mod env
 // =====================================================================
@@ -804,6 +818,120 @@ pub proof fn lemma_wsum_after_victims<K, V>(m: Map<KeyId, ValueEntry<K, V>>, p: 
     }
     lemma_wsum_same_entries(s, rem(m, p, n), m);
 }
+
+/// x occurs strictly before y in the list (by node id)
+pub open spec fn before(p: Seq<N>, x: int, y: int) -> bool {
+    exists|i: int, j: int| 0 <= i < j < p.len() && (#[trigger] p[i]).id == x && (#[trigger] p[j]).id == y
+}
+/// every pair that is ordered in `post` was ordered the same way in `pre` (relative recency order is preserved)
+pub open spec fn ord_pres(pre: Seq<N>, post: Seq<N>) -> bool {
+    forall|x: int, y: int| #[trigger] before(post, x, y) ==> before(pre, x, y)
+}
+pub proof fn lemma_ord_remove(p: Seq<N>, i: int)
+    requires 0 <= i < p.len()
+    ensures ord_pres(p, p.remove(i))
+{
+    let q = p.remove(i);
+    assert forall|x: int, y: int| #[trigger] before(q, x, y) implies before(p, x, y) by {
+        let (a, b) = choose|a: int, b: int| 0 <= a < b < q.len() && (#[trigger] q[a]).id == x && (#[trigger] q[b]).id == y;
+        let a1 = if a < i { a } else { a + 1 }; let b1 = if b < i { b } else { b + 1 };
+        assert(q[a] == p[a1]); assert(q[b] == p[b1]);
+        assert(0 <= a1 < b1 < p.len() && p[a1].id == x && p[b1].id == y);
+    }
+}
+pub proof fn lemma_ord_skip(p: Seq<N>, n: int)
+    requires 0 <= n <= p.len()
+    ensures ord_pres(p, p.skip(n))
+{
+    let q = p.skip(n);
+    assert forall|x: int, y: int| #[trigger] before(q, x, y) implies before(p, x, y) by {
+        let (a, b) = choose|a: int, b: int| 0 <= a < b < q.len() && (#[trigger] q[a]).id == x && (#[trigger] q[b]).id == y;
+        assert(q[a] == p[a + n]); assert(q[b] == p[b + n]);
+        assert(0 <= a + n < b + n < p.len() && p[a + n].id == x && p[b + n].id == y);
+    }
+}
+pub proof fn lemma_ord_trans(a: Seq<N>, b: Seq<N>, c: Seq<N>)
+    requires ord_pres(a, b), ord_pres(b, c)
+    ensures ord_pres(a, c)
+{
+    assert forall|x: int, y: int| #[trigger] before(c, x, y) implies before(a, x, y) by { assert(before(b, x, y)); }
+}
+pub proof fn lemma_ord_refl(a: Seq<N>) ensures ord_pres(a, a) {}
+
+/// least n (searching upwards from `from`) such that the first n nodes weigh at least cw
+pub open spec fn least_prefix<K, V>(p: Seq<N>, m: Map<KeyId, ValueEntry<K, V>>, cw: int, from: int) -> Option<int>
+    decreases p.len() - from
+{
+    if from < 0 || from > p.len() { None }
+    else if wsum(p.take(from), m) >= cw { Some(from) }
+    else if from == p.len() { None }
+    else { least_prefix(p, m, cw, from + 1) }
+}
+/// C13, from the property statement: admitted iff a shortest sufficient LRU prefix exists and the candidate is
+/// strictly more popular than the summed popularity of that prefix
+pub open spec fn spec_admit<K, V>(cw: int, cf: int, p: Seq<N>, m: Map<KeyId, ValueEntry<K, V>>, sk: FrequencySketch) -> bool {
+    match least_prefix(p, m, cw, 0) { Some(n) => cf > fsum(p.take(n), sk), None => false }
+}
+pub proof fn lemma_wsum_take_mono<K, V>(p: Seq<N>, m: Map<KeyId, ValueEntry<K, V>>, a: int, b: int)
+    requires 0 <= a <= b <= p.len()
+    ensures wsum(p.take(a), m) <= wsum(p.take(b), m)
+    decreases b - a
+{
+    if a < b {
+        lemma_wsum_take_mono(p, m, a, b - 1);
+        assert(p.take(b).drop_last() =~= p.take(b - 1));
+    }
+}
+pub proof fn lemma_fsum_take_mono(p: Seq<N>, sk: FrequencySketch, a: int, b: int)
+    requires 0 <= a <= b <= p.len()
+    ensures fsum(p.take(a), sk) <= fsum(p.take(b), sk)
+    decreases b - a
+{
+    if a < b {
+        lemma_fsum_take_mono(p, sk, a, b - 1);
+        assert(p.take(b).drop_last() =~= p.take(b - 1));
+    }
+}
+/// characterisation of least_prefix
+pub proof fn lemma_least_prefix<K, V>(p: Seq<N>, m: Map<KeyId, ValueEntry<K, V>>, cw: int, from: int)
+    requires 0 <= from <= p.len(), forall|i: int| 0 <= i < from ==> wsum(#[trigger] p.take(i), m) < cw
+    ensures match least_prefix(p, m, cw, from) {
+        Some(n) => from <= n <= p.len() && wsum(p.take(n), m) >= cw && forall|i: int| 0 <= i < n ==> wsum(#[trigger] p.take(i), m) < cw,
+        None => forall|i: int| 0 <= i <= p.len() ==> wsum(#[trigger] p.take(i), m) < cw,
+    }
+    decreases p.len() - from
+{
+    if wsum(p.take(from), m) >= cw { }
+    else if from == p.len() { }
+    else { lemma_least_prefix(p, m, cw, from + 1); }
+}
+
+/// weights of a prefix do not depend on a key that is not in the list
+pub proof fn lemma_least_prefix_unrelated<K, V>(p: Seq<N>, m: Map<KeyId, ValueEntry<K, V>>, k: KeyId, e: ValueEntry<K, V>, cw: int, from: int)
+    requires forall|i: int| 0 <= i < p.len() ==> (#[trigger] p[i]).key != k
+    ensures least_prefix(p, m.insert(k, e), cw, from) == least_prefix(p, m, cw, from)
+    decreases p.len() - from
+{
+    if 0 <= from <= p.len() {
+        lemma_wsum_insert_unrelated(p.take(from), m, k, e);
+        if from < p.len() { lemma_least_prefix_unrelated(p, m, k, e, cw, from + 1); }
+    }
+}
+/// removing list keys commutes with (re)binding a key that is not in the list
+pub proof fn lemma_rem_insert<K, V>(m: Map<KeyId, ValueEntry<K, V>>, p: Seq<N>, n: int, k: KeyId, e: ValueEntry<K, V>, e2: ValueEntry<K, V>)
+    requires 0 <= n <= p.len(), forall|i: int| 0 <= i < p.len() ==> (#[trigger] p[i]).key != k
+    ensures rem(m.insert(k, e), p, n).insert(k, e2) =~= rem(m, p, n).insert(k, e2)
+    decreases n
+{
+    if n > 0 {
+        lemma_rem_insert(m, p, n - 1, k, e, e2);
+        let a = rem(m.insert(k, e), p, n - 1); let b = rem(m, p, n - 1);
+        assert(a.insert(k, e2) =~= b.insert(k, e2));
+        assert(p[n - 1].key != k);
+        assert(a.remove(p[n - 1].key).insert(k, e2) =~= a.insert(k, e2).remove(p[n - 1].key));
+        assert(b.remove(p[n - 1].key).insert(k, e2) =~= b.insert(k, e2).remove(p[n - 1].key));
+    }
+}
 } // mod cspec
 pub mod code {
 use vstd::prelude::*;
@@ -813,7 +941,7 @@ use std::borrow::Borrow;
 use std::hash::{BuildHasher, Hash};
 use super::env::*;
 use super::cspec::*;
-broadcast use {axiom_kid_rc, axiom_dur_nonneg, axiom_ptr_reads, axiom_rc_reads};
+broadcast use {axiom_kid_rc, axiom_dur_nonneg, axiom_ptr_reads, axiom_rc_reads, axiom_f64_mul_ok, axiom_f64_div_ok};
 //@@ CONST file=src/unsync/cache.rs name=EVICTION_BATCH_SIZE
 use std::ptr::NonNull;
 use vstd::std_specs::iter::IteratorSpec;
@@ -910,7 +1038,17 @@ where
     }
     pub open spec fn same_cfg(&self, o: &Self) -> bool {
         self.max_capacity == o.max_capacity && self.time_to_live == o.time_to_live && self.time_to_idle == o.time_to_idle
-            && self.build_hasher == o.build_hasher
+            && self.build_hasher == o.build_hasher && self.expiration_clock == o.expiration_clock
+    }
+    /// configuration, weigher and popularity estimator are the same
+    pub open spec fn same_aux(&self, o: &Self) -> bool {
+        self.same_cfg(o) && self.weigher == o.weigher && self.frequency_sketch == o.frequency_sketch
+            && self.frequency_sketch_enabled == o.frequency_sketch_enabled
+    }
+    /// the views a later operation can observe are the same
+    pub open spec fn same_views(&self, o: &Self) -> bool {
+        self.cache@ =~= o.cache@ && self.deques.probation@ =~= o.deques.probation@ && self.deques.write_order@ =~= o.deques.write_order@
+            && self.entry_count == o.entry_count && self.weighted_size == o.weighted_size
     }
     /// one-to-one correspondence map entries <-> list nodes (no orphan node, no node-less entry); unused lists empty
     pub open spec fn inv_struct(&self) -> bool {
@@ -924,22 +1062,133 @@ where
     pub open spec fn wf(&self) -> bool {
         self.cfg_ok() && self.inv_struct() && self.inv_ts() && self.inv_count() && self.inv_weight()
     }
+    /// C05 / C06, from the property statements: the entry's time-to-live or time-to-idle deadline is at or before `now`
     pub open spec fn sp_expired(&self, e: &ValueEntry<K, V>, now: Instant) -> bool {
         ||| (self.time_to_live.is_some() && e.sp_last_modified().is_some() && e.sp_last_modified().unwrap().t() + dur_ns(self.time_to_live.unwrap()) <= now.t())
         ||| (self.time_to_idle.is_some() && e.sp_last_accessed().is_some() && e.sp_last_accessed().unwrap().t() + dur_ns(self.time_to_idle.unwrap()) <= now.t())
     }
+    /// The one clock reading an operation that starts in state `self` takes. Time is *named*, not modelled: every
+    /// contract below holds for an arbitrary value of this reading (it is uninterpreted), nothing relates two readings.
+    pub uninterp spec fn sp_now(&self) -> Instant;
+    pub open spec fn sp_ts(&self) -> Option<Instant> { if self.sp_has_expiry() { Some(self.sp_now()) } else { None } }
+    /// what a lookup of key k answers on map m at reading ts (C01, C05, C06)
+    pub open spec fn sp_hit(&self, m: Map<KeyId, ValueEntry<K, V>>, k: KeyId, ts: Option<Instant>) -> bool {
+        m.contains_key(k) && (ts.is_some() ==> !self.sp_expired(&m[k], ts.unwrap()))
+    }
+
+    // ---------------- relations between pre- and post-states (the vocabulary of the top-level contracts) ----------------
+    /// `post` is `pre` with some entries removed and nothing else changed; the survivors keep their relative recency order
+    pub open spec fn rel_purge(pre: Self, post: Self) -> bool {
+        &&& post.wf() && post.same_aux(&pre)
+        &&& forall|k: KeyId| #[trigger] post.cache@.contains_key(k) ==> pre.cache@.contains_key(k) && post.cache@[k] == pre.cache@[k]
+        &&& ord_pres(pre.deques.probation@, post.deques.probation@)
+        &&& post.deques.probation@.len() <= pre.deques.probation@.len()
+    }
+    /// expiry purge (evict_expired_if_needed)
+    pub open spec fn rel_evict_expired(pre: Self, post: Self) -> bool {
+        &&& Self::rel_purge(pre, post)
+        &&& (!pre.sp_has_expiry() ==> post.same_views(&pre))
+    }
+    /// size eviction (evict_lru_entries): exactly the shortest sufficient LRU prefix goes (C12), nothing when within capacity (C03)
+    pub open spec fn rel_evict_lru(pre: Self, post: Self) -> bool {
+        &&& Self::rel_purge(pre, post)
+        &&& post.deques.write_order@.len() <= pre.deques.write_order@.len()
+        &&& ({
+            let n = pre.deques.probation@.len() - post.deques.probation@.len();
+            let p0 = pre.deques.probation@;
+            &&& post.deques.probation@ == p0.skip(n)
+            &&& post.cache@ == rem(pre.cache@, p0, n)
+            &&& (n > 0 ==> wsum(p0.take(n - 1), pre.cache@) < pre.sp_weights_to_evict())
+            &&& (wsum(p0.take(n), pre.cache@) >= pre.sp_weights_to_evict() || n == 100 || n == p0.len())
+        })
+        &&& (pre.sp_weights_to_evict() == 0 ==> post.same_views(&pre))
+    }
+    /// the housekeeping prefix every public operation starts with
+    pub open spec fn rel_hk(pre: Self, post: Self) -> bool {
+        exists|mid: Self| #[trigger] Self::rel_evict_expired(pre, mid) && Self::rel_evict_lru(mid, post)
+    }
+    /// effect of the lookup part of `get` on the state `mid` left by housekeeping
+    pub open spec fn rel_get(mid: Self, post: Self, k: KeyId, ts: Option<Instant>, hash: u64, hit: bool) -> bool {
+        &&& post.wf() && post.same_cfg(&mid) && post.weigher == mid.weigher && post.frequency_sketch_enabled == mid.frequency_sketch_enabled
+        &&& post.frequency_sketch == mid.frequency_sketch.incremented(hash)
+        &&& post.deques.write_order@ == mid.deques.write_order@
+        &&& Self::rel_get_answer(mid, k, ts, hit)
+        &&& Self::rel_get_entries(mid, post, k, ts, hit)
+        &&& Self::rel_get_order(mid, post, k, hit)
+    }
+    /// C01/C05/C06/C07: a hit iff the key is resident and not expired at the reading
+    pub open spec fn rel_get_answer(mid: Self, k: KeyId, ts: Option<Instant>, hit: bool) -> bool {
+        hit == mid.sp_hit(mid.cache@, k, ts)
+    }
+    /// a miss changes no entry; a hit changes only the idle timer of the key that was looked up (C06)
+    pub open spec fn rel_get_entries(mid: Self, post: Self, k: KeyId, ts: Option<Instant>, hit: bool) -> bool {
+        &&& (!hit ==> post.cache@ =~= mid.cache@)
+        &&& (hit ==> {
+            &&& post.cache@.dom() =~= mid.cache@.dom()
+            &&& forall|k2: KeyId| k2 != k && #[trigger] mid.cache@.contains_key(k2) ==> post.cache@[k2] == mid.cache@[k2]
+            &&& post.cache@[k].value == mid.cache@[k].value && post.cache@[k].w() == mid.cache@[k].w() && post.cache@[k].tm() == mid.cache@[k].tm()
+            &&& post.cache@[k].ao() == mid.cache@[k].ao() && post.cache@[k].wo() == mid.cache@[k].wo()
+            &&& post.cache@[k].ta() == (if ts.is_some() { ts } else { mid.cache@[k].ta() })
+        })
+    }
+    /// C12: a hit makes the key most recently used; nothing else is reordered
+    pub open spec fn rel_get_order(mid: Self, post: Self, k: KeyId, hit: bool) -> bool {
+        &&& (!hit ==> post.deques.probation@ == mid.deques.probation@)
+        &&& (hit ==> post.deques.probation@ == moved_to_back(mid.deques.probation@, pos_of_key(mid.deques.probation@, k)))
+    }
 
     // ---------------- assumed (outside reach), contracts only ----------------
-    /// housekeeping prefix: purges expired entries (closure capturing &mut: Kani glue harness), returns the clock reading
+    /// the clock: `Instant::now()` or the mock clock
     #[verifier::external_body]
-    fn evict_expired_if_needed(&mut self) -> (r: Option<Instant>)
-        requires old(self).wf(),
-        ensures final(self).wf(), final(self).same_cfg(old(self)), r.is_some() == old(self).sp_has_expiry(),
-            final(self).frequency_sketch == old(self).frequency_sketch, final(self).frequency_sketch_enabled == old(self).frequency_sketch_enabled,
-            // only removes entries; survivors are untouched
-            forall|k: KeyId| #[trigger] final(self).cache@.contains_key(k) ==> old(self).cache@.contains_key(k) && final(self).cache@[k] == old(self).cache@[k],
-            final(self).weigher == old(self).weigher, final(self).deques.probation@.len() <= old(self).deques.probation@.len(),
+    fn current_time_from_expiration_clock(&self) -> (r: Instant)
+        ensures r == self.sp_now()
     { unimplemented!() }
+
+    /// purges expired entries. NOT verified by Verus (closure capturing `&mut`); its two loop callees are
+    /// (`remove_expired_wo`, `remove_expired_ao`), the glue arithmetic is checked by the Kani harness `glue_evict_expired`.
+    #[verifier::external_body]
+    fn evict_expired(&mut self, now: Instant)
+        requires old(self).wf(),
+        ensures Self::rel_purge(*old(self), *final(self)),
+    { unimplemented!() }
+
+//@@ FN file=src/unsync/cache.rs owner=Cache name=has_expiry tags=C05,C06
+    fn has_expiry(&self) -> /*@+*/(r:/*@-*/ bool/*@+*/)/*@-*/
+        ensures r == self.sp_has_expiry() //@ [C05,C06,C17]
+    {
+        self.time_to_live.is_some() || self.time_to_idle.is_some()
+    }
+//@@ END
+
+//@@ FN file=src/unsync/cache.rs owner=Cache name=evict_expired_if_needed tags=C05,C06
+    fn evict_expired_if_needed(&mut self) -> /*@+*/(r:/*@-*/ Option<Instant>/*@+*/)/*@-*/
+        requires old(self).wf(), //@
+        ensures //@
+            r == old(self).sp_ts(), //@ [C05,C06]
+            Self::rel_evict_expired(*old(self), *final(self)), //@ [C03,C15,C17]
+    {
+        if self.has_expiry() {
+            let ts = self.current_time_from_expiration_clock();
+            self.evict_expired(ts);
+            Some(ts)
+        } else {
+            proof { lemma_ord_refl(self.deques.probation@); } //@
+            None
+        }
+    }
+//@@ END
+
+//@@ FN file=src/unsync/cache.rs owner=Cache name=is_expired_entry tags=C05,C06
+    pub(crate) fn is_expired_entry(&self, entry: &ValueEntry<K, V>) -> /*@+*/(r:/*@-*/ bool/*@+*/)/*@-*/
+        requires self.cfg_ok(), //@
+        ensures r == self.sp_expired(entry, self.sp_now()) //@ [C05,C06,C01]
+    {
+        let now = self.current_time_from_expiration_clock();
+        Self::is_expired_entry_wo(&self.time_to_live, entry, now)
+            || Self::is_expired_entry_ao(&self.time_to_idle, entry, now)
+    }
+//@@ END
+
     pub open spec fn sp_weights_to_evict(&self) -> int {
         match self.max_capacity { Some(l) => if self.weighted_size > l { self.weighted_size - l } else { 0 }, None => 0 }
     }
@@ -965,7 +1214,9 @@ where
             final(self).inv_weight(), //@ [C10,C03,C04]
             final(self).frequency_sketch == old(self).frequency_sketch, final(self).frequency_sketch_enabled == old(self).frequency_sketch_enabled, //@ [C14,C15]
             forall|k: KeyId| #[trigger] final(self).cache@.contains_key(k) ==> old(self).cache@.contains_key(k) && final(self).cache@[k] == old(self).cache@[k], //@ [C01,C03,C15]
-            final(self).weigher == old(self).weigher, final(self).deques.probation@.len() <= old(self).deques.probation@.len(), //@
+            final(self).weigher == old(self).weigher, final(self).expiration_clock == old(self).expiration_clock, //@
+            final(self).deques.probation@.len() <= old(self).deques.probation@.len(), final(self).deques.write_order@.len() <= old(self).deques.write_order@.len(), //@
+            ord_pres(old(self).deques.probation@, final(self).deques.probation@), //@ [C12,C15]
             // C12: the removed entries are exactly a prefix of the recency order, and the shortest one that frees enough
             ({ //@ [C12,C04,C03]
                 let n = old(self).deques.probation@.len() - final(self).deques.probation@.len(); //@
@@ -976,7 +1227,7 @@ where
                 &&& (wsum(p0.take(n), old(self).cache@) >= old(self).sp_weights_to_evict() || n == 100 || n == p0.len()) //@
             }), //@
             // C03: nothing to evict => nothing changes
-            old(self).sp_weights_to_evict() == 0 ==> final(self).cache@ == old(self).cache@ && final(self).deques.probation@ == old(self).deques.probation@, //@ [C03,C15,C17]
+            old(self).sp_weights_to_evict() == 0 ==> final(self).same_views(old(self)), //@ [C03,C15,C17]
     {
         const DEQ_NAME: &'static str = "probation";
 
@@ -1005,6 +1256,7 @@ where
                     wsum(probation@, cache@) >= 0, wsum(p0, m0) <= p0.len() * 0xFFFF_FFFF, p0.len() < 0xFFFF_FFFF, //@
                     evicted_count > 0 ==> wsum(p0.take(evicted_count - 1), m0) < weights_to_evict, //@ [C12]
                     core_wf(m0, p0, old(self).deques.write_order@, ttl), //@
+                    wo@.len() <= old(self).deques.write_order@.len(), evicted_count == 0 ==> wo@ == old(self).deques.write_order@, //@
                 ensures //@
                     evicted_policy_weight >= weights_to_evict || evicted_count == 100 || evicted_count == p0.len(), //@ [C04]
             {
@@ -1051,7 +1303,7 @@ where
         }
 
         proof { //@
-            lemma_wsum_nonneg(self.deques.probation@, self.cache@); lemma_rem_props(m0, p0, evicted_count as int); //@
+            lemma_wsum_nonneg(self.deques.probation@, self.cache@); lemma_rem_props(m0, p0, evicted_count as int); lemma_ord_skip(p0, evicted_count as int); //@
             if evicted_count > 0 { lemma_wsum_nonneg(p0.take(evicted_count - 1), m0); } //@
             assert(p0.skip(0) =~= p0); //@
         } //@
@@ -1146,13 +1398,15 @@ where
             final(self).frequency_sketch == old(self).frequency_sketch, //@ [C14,C15]
             // C01/C15/C06: only the housekeeping prefix may have removed entries; survivors identical (value, timestamps, weight)
             forall|k: KeyId| #[trigger] final(self).cache@.contains_key(k) ==> old(self).cache@.contains_key(k) && final(self).cache@[k] == old(self).cache@[k], //@ [C01,C15,C06,C07]
-            // C01/C05/C06: a hit means the key is resident
-            r ==> final(self).cache@.contains_key(kid(key)), //@ [C01,C07]
-            // without expiry the answer is exactly map membership
-            !old(self).sp_has_expiry() ==> r == final(self).cache@.contains_key(kid(key)) //@ [C01,C03]
+            // C15: the post-state is exactly what the housekeeping prefix leaves behind: no timer, recency or estimator change
+            Self::rel_hk(*old(self), *final(self)), //@ [C15,C06,C12,C14]
+            // C01/C03/C05/C06/C07: the answer: resident and not expired at this operation's clock reading
+            r == old(self).sp_hit(final(self).cache@, kid(key), old(self).sp_ts()) //@ [C01,C03,C05,C06,C07]
     {
         let timestamp = self.evict_expired_if_needed();
+        let ghost mid = *self; //@
         self.evict_lru_entries();
+        proof { assert(Self::rel_evict_expired(*old(self), mid) && Self::rel_evict_lru(mid, *self)); } //@
 
         match (self.cache.get(key), timestamp) {
             // Value not found.
@@ -1187,6 +1441,14 @@ where
                     && *v == old(self).cache@[kid(key)].value && final(self).cache@[kid(key)].value == *v, //@
                 None => true, //@
             }, //@
+            // the complete effect: the housekeeping prefix, then the lookup: hit iff resident and not expired at this
+            // operation's clock reading; a hit refreshes the idle timer and makes the key most recently used, a miss changes nothing
+            exists|mid: Self| #[trigger] Self::rel_hk(*old(self), mid) //@ [C14]
+                && Self::rel_get(mid, *final(self), kid(key), old(self).sp_ts(), old(self).sp_hash(key), r.is_some()), //@
+            // the same, clause by clause (for attribution of a failure to the property it breaks)
+            exists|mid: Self| #[trigger] Self::rel_hk(*old(self), mid) && Self::rel_get_answer(mid, kid(key), old(self).sp_ts(), r.is_some()), //@ [C01,C03,C05,C06,C07]
+            exists|mid: Self| #[trigger] Self::rel_hk(*old(self), mid) && Self::rel_get_entries(mid, *final(self), kid(key), old(self).sp_ts(), r.is_some()), //@ [C01,C06,C07]
+            exists|mid: Self| #[trigger] Self::rel_hk(*old(self), mid) && Self::rel_get_order(mid, *final(self), kid(key), r.is_some()), //@ [C12]
             // nothing but the looked-up key changes, and of that key only the access time
             forall|k: KeyId| #[trigger] final(self).cache@.contains_key(k) ==> old(self).cache@.contains_key(k) //@ [C01,C05,C07,C10]
                 && final(self).cache@[k].value == old(self).cache@[k].value && final(self).cache@[k].w() == old(self).cache@[k].w() //@
@@ -1195,9 +1457,12 @@ where
             !old(self).sp_has_expiry() ==> (r.is_some() == final(self).cache@.contains_key(kid(key))) //@ [C01,C03]
     {
         let timestamp = self.evict_expired_if_needed();
+        let ghost mid0 = *self; //@
         self.evict_lru_entries();
-        self.frequency_sketch.increment(self.hash(key)/*@+*/);/*@-*/
-        /*@+*/let ghost mid_m = self.cache@; let ghost mid_p = self.deques.probation@; let ghost mid_wo = self.deques.write_order@; let ghost ttl = self.time_to_live.is_some(/*@-*/);
+        let ghost mid = *self; //@
+        proof { assert(Self::rel_evict_expired(*old(self), mid0) && Self::rel_evict_lru(mid0, mid)); assert(Self::rel_hk(*old(self), mid)); } //@
+        self.frequency_sketch.increment(self.hash(key));
+        let ghost mid_m = self.cache@; let ghost mid_p = self.deques.probation@; let ghost mid_wo = self.deques.write_order@; let ghost ttl = self.time_to_live.is_some(); //@
 
         match (self.cache.get_mut(key), timestamp, &mut self.deques) {
             // Value not found.
@@ -1256,9 +1521,17 @@ where
             !final(self).cache@.contains_key(kid(key)), //@ [C07,C01]
             // ... and nothing else is touched beyond what the housekeeping prefix removes
             forall|k: KeyId| #[trigger] final(self).cache@.contains_key(k) ==> old(self).cache@.contains_key(k) && final(self).cache@[k] == old(self).cache@[k], //@ [C07,C01]
+            final(self).weigher == old(self).weigher, final(self).frequency_sketch_enabled == old(self).frequency_sketch_enabled, //@
+            // C07, precise: exactly the entry of this key is taken out of what housekeeping left; the recency order of the others is untouched
+            exists|mid: Self| #[trigger] Self::rel_hk(*old(self), mid) && final(self).cache@ =~= mid.cache@.remove(kid(key)), //@ [C07,C01,C03]
+            exists|mid: Self| #[trigger] Self::rel_hk(*old(self), mid) //@ [C12,C07]
+                && final(self).deques.probation@ == (if mid.cache@.contains_key(kid(key)) { mid.deques.probation@.remove(pos_of_key(mid.deques.probation@, kid(key))) } else { mid.deques.probation@ }), //@
     {
         self.evict_expired_if_needed();
+        let ghost mid0 = *self; //@
         self.evict_lru_entries();
+        let ghost mid = *self; //@
+        proof { assert(Self::rel_evict_expired(*old(self), mid0) && Self::rel_evict_lru(mid0, mid)); assert(Self::rel_hk(*old(self), mid)); } //@
 
         proof { if self.cache@.contains_key(kid(key)) { //@
             lemma_pos_of_key(self.cache@, self.deques.probation@, self.deques.write_order@, self.time_to_live.is_some(), kid(key)); //@
@@ -1285,7 +1558,10 @@ where
             final(self).inv_count(), //@ [C10]
             final(self).inv_weight(), //@ [C10,C03,C04]
             final(self).frequency_sketch == old(self).frequency_sketch, //@ [C14]
+            final(self).weigher == old(self).weigher, final(self).frequency_sketch_enabled == old(self).frequency_sketch_enabled, //@
             final(self).cache@ == Map::<KeyId, ValueEntry<K, V>>::empty(), //@ [C07,C01]
+            final(self).deques.probation@.len() == 0, final(self).deques.write_order@.len() == 0, //@ [C07,C11]
+            final(self).entry_count == 0, final(self).weighted_size == 0, //@ [C10]
     {
         self.cache.clear();
         self.deques.clear();
@@ -1346,6 +1622,7 @@ where
             final(self).inv_count(), //@ [C10]
             final(self).inv_weight(), //@ [C10,C03,C04]
             final(self).frequency_sketch == old(self).frequency_sketch, final(self).frequency_sketch_enabled == old(self).frequency_sketch_enabled, //@ [C14]
+            final(self).weigher == old(self).weigher, //@
             final(self).cache@.dom() == old(self).cache@.dom(), //@ [C01,C03,C07]
             forall|k: KeyId| #[trigger] final(self).cache@.contains_key(k) && k != kid_rc(key) ==> final(self).cache@[k] == old(self).cache@[k], //@ [C01,C07]
             final(self).cache@[kid_rc(key)].value == old(self).cache@[kid_rc(key)].value, //@ [C01]
@@ -1415,6 +1692,14 @@ where
                 && cache@[deqs.probation@[i].key].w() == wspec(*old(weigher), deqs.probation@[i].key, cache@[deqs.probation@[i].key].value), //@
         ensures //@
             *final(weigher) == *old(weigher), //@ [C13]
+            // C13, as the property states it: admitted iff the shortest sufficient LRU prefix exists and is strictly less popular
+            (r is Admitted) <==> spec_admit(candidate.weight as int, candidate.freq as int, deqs.probation@, cache@, *freq), //@ [C13]
+            // C12: the victims are exactly that prefix
+            match r { //@ [C12,C13]
+                AdmissionResult::Admitted { victim_nodes, victims_weight } => //@
+                    least_prefix(deqs.probation@, cache@, candidate.weight as int, 0) == Some(victim_nodes.v@.len() as int), //@
+                AdmissionResult::Rejected => true, //@
+            }, //@
             match r { //@ [C13,C12,C04]
                 AdmissionResult::Admitted { victim_nodes, victims_weight } => { //@
                     let n = victim_nodes.v@.len() as int; //@
@@ -1450,6 +1735,8 @@ where
                 forall|i: int| 0 <= i < deqs.probation@.len() ==> cache@.contains_key(#[trigger] deqs.probation@[i].key) //@
                     && cache@[deqs.probation@[i].key].w() == wspec(*old(weigher), deqs.probation@[i].key, cache@[deqs.probation@[i].key].value), //@
                 frozen::<K>(deqs.probation@), //@
+            ensures //@
+                victims.weight >= candidate.weight || candidate.freq <= victims.freq || victim_nodes.v@.len() == deqs.probation@.len(), //@ [C13]
             decreases deqs.probation@.len() - victim_nodes.v@.len(), //@ [C08]
         {
             if candidate.freq < victims.freq {
@@ -1481,14 +1768,34 @@ where
             } else {
                 // No more potential victims.
                 break;
-            }
-        }
+            } //@
+        } //@
 
         // Admit or reject the candidate.
 
         // TODO: Implement some randomness to mitigate hash DoS attack.
         // See Caffeine's implementation.
 
+        proof { //@
+            let p = deqs.probation@; let m = cache@; let n = victim_nodes.v@.len() as int; let cw = candidate.weight as int; //@
+            assert forall|i: int| 0 <= i < n implies wsum(#[trigger] p.take(i), m) < cw by { lemma_wsum_take_mono(p, m, i, n - 1); } //@
+            lemma_least_prefix(p, m, cw, 0); //@
+            if victims.weight >= candidate.weight { //@
+                assert(least_prefix(p, m, cw, 0) == Some(n)) by { //@
+                    let l = least_prefix(p, m, cw, 0); //@
+                    if l is Some { let ln = l.unwrap(); if ln < n { } else if ln > n { assert(wsum(p.take(n), m) < cw); } } //@
+                } //@
+            } else { //@
+                match least_prefix(p, m, cw, 0) { //@
+                    Some(ln) => { //@
+                        if ln <= n { lemma_wsum_take_mono(p, m, ln, n); } //@
+                        lemma_fsum_take_mono(p, *freq, n, ln); //@
+                        if n == p.len() { lemma_wsum_take_mono(p, m, ln, n); } //@
+                    }, //@
+                    None => {}, //@
+                } //@
+            }
+        }
         if victims.weight >= candidate.weight && candidate.freq > victims.freq {
             AdmissionResult::Admitted {
                 victim_nodes,
@@ -1524,12 +1831,92 @@ where
     }
 //@@ END
 
-    /// f64 arithmetic + `ensure_capacity`: only the sketch and its flag may change (sketch unit proves the rest)
-    #[verifier::external_body]
+    /// only the estimator (resized, never a recording) and its flag may change
+    pub open spec fn rel_sketch_resized(pre: Self, post: Self) -> bool {
+        &&& post.same_cfg(&pre) && post.cache == pre.cache && post.deques == pre.deques
+        &&& post.entry_count == pre.entry_count && post.weighted_size == pre.weighted_size && post.weigher == pre.weigher
+        &&& (post.frequency_sketch == pre.frequency_sketch || exists|cap: u32| post.frequency_sketch == #[trigger] pre.frequency_sketch.ensured(cap))
+    }
+//@@ FN file=src/unsync/cache.rs owner=Cache name=enable_frequency_sketch tags=C14
     fn enable_frequency_sketch(&mut self)
-        ensures final(self).same_cfg(old(self)), final(self).cache == old(self).cache, final(self).deques == old(self).deques,
-            final(self).entry_count == old(self).entry_count, final(self).weighted_size == old(self).weighted_size, final(self).weigher == old(self).weigher,
-    { unimplemented!() }
+        ensures Self::rel_sketch_resized(*old(self), *final(self)) //@ [C14]
+    {
+        if let Some(max_cap) = self.max_capacity {
+            let cap = if self.weigher.is_none() {
+                max_cap
+            } else {
+                (self.entry_count as f64 * (self.weighted_size as f64 / max_cap as f64)) as u64
+            };
+            self.do_enable_frequency_sketch(cap);
+        }
+    }
+//@@ END
+
+//@@ FN file=src/unsync/cache.rs owner=Cache name=do_enable_frequency_sketch tags=C14
+    fn do_enable_frequency_sketch(&mut self, cache_capacity: u64)
+        ensures Self::rel_sketch_resized(*old(self), *final(self)), //@ [C14]
+            final(self).frequency_sketch_enabled //@ [C13]
+    {
+        let skt_capacity = common::sketch_capacity(cache_capacity);
+        self.frequency_sketch.ensure_capacity(skt_capacity);
+        self.frequency_sketch_enabled = true;
+    }
+//@@ END
+
+    /// C03: the free-space test of the property statement ("weight fits in the remaining capacity")
+    pub open spec fn sp_fits(&self, w: u32) -> bool { match self.max_capacity { Some(l) => self.weighted_size + w <= l, None => true } }
+    /// C04: heavier than the whole cache
+    pub open spec fn sp_oversize(&self, w: u32) -> bool { self.max_capacity.is_some() && w > self.max_capacity.unwrap() }
+    /// key k was added as the most recently used entry after exactly the first n (least recently used) residents were removed
+    pub open spec fn rel_added(pre_m: Map<KeyId, ValueEntry<K, V>>, pre_p: Seq<N>, pre_ws: int, post: Self, k: KeyId, w: u32, hash: u64, n: int) -> bool {
+        &&& post.cache@.contains_key(k)
+        &&& post.cache@ =~= rem(pre_m, pre_p, n).insert(k, post.cache@[k])
+        &&& post.deques.probation@.len() == pre_p.len() - n + 1
+        &&& post.deques.probation@.drop_last() =~= pre_p.skip(n)
+        &&& post.deques.probation@.last().key == k && post.deques.probation@.last().hash == hash
+        &&& post.weighted_size == pre_ws - wsum(pre_p.take(n), pre_m) + w
+    }
+    /// no resident was touched
+    pub open spec fn rel_untouched(pre_m: Map<KeyId, ValueEntry<K, V>>, pre_p: Seq<N>, pre_wo: Seq<N>, pre_ws: int, post: Self) -> bool {
+        post.cache@ =~= pre_m && post.deques.probation@ =~= pre_p && post.deques.write_order@ =~= pre_wo && post.weighted_size == pre_ws
+    }
+
+    /// an existing key was rebound: same residents, the key becomes most recently used, weight bookkeeping by difference
+    pub open spec fn rel_updated(mid: Self, post: Self, k: KeyId, w: u32) -> bool {
+        &&& post.cache@.dom() =~= mid.cache@.dom()
+        &&& forall|k2: KeyId| k2 != k && #[trigger] mid.cache@.contains_key(k2) ==> post.cache@[k2] == mid.cache@[k2]
+        &&& post.deques.probation@ == moved_to_back(mid.deques.probation@, pos_of_key(mid.deques.probation@, k))
+        &&& post.weighted_size == mid.weighted_size - mid.cache@[k].w() + w
+    }
+    /// the new binding itself (C01, C05, C06, C10)
+    pub open spec fn rel_bound(mid: Self, post: Self, k: KeyId, v: V, w: u32, ts: Option<Instant>) -> bool {
+        post.cache@.contains_key(k) ==> post.cache@[k].value == v && post.cache@[k].w() == w
+            && (mid.sp_has_expiry() ==> post.cache@[k].ta() == ts) && (mid.time_to_live.is_some() ==> post.cache@[k].tm() == ts)
+    }
+    /// which of the cases of the property statements applies to an insert of weight w into the state left by housekeeping
+    pub open spec fn case_update(mid: Self, k: KeyId) -> bool { mid.cache@.contains_key(k) }
+    pub open spec fn case_fits(mid: Self, k: KeyId, w: u32) -> bool { !mid.cache@.contains_key(k) && mid.sp_fits(w) }
+    pub open spec fn case_oversize(mid: Self, k: KeyId, w: u32) -> bool { !mid.cache@.contains_key(k) && !mid.sp_fits(w) && mid.sp_oversize(w) }
+    pub open spec fn case_admitted(mid: Self, k: KeyId, w: u32, hash: u64) -> bool {
+        !mid.cache@.contains_key(k) && !mid.sp_fits(w) && !mid.sp_oversize(w)
+            && spec_admit(w as int, mid.frequency_sketch.freq(hash) as int, mid.deques.probation@, mid.cache@, mid.frequency_sketch)
+    }
+    pub open spec fn case_rejected(mid: Self, k: KeyId, w: u32, hash: u64) -> bool {
+        !mid.cache@.contains_key(k) && !mid.sp_fits(w) && !mid.sp_oversize(w)
+            && !spec_admit(w as int, mid.frequency_sketch.freq(hash) as int, mid.deques.probation@, mid.cache@, mid.frequency_sketch)
+    }
+    /// the complete effect of the insert proper on the state `mid` left by housekeeping
+    pub open spec fn rel_insert(mid: Self, post: Self, k: KeyId, v: V, w: u32, ts: Option<Instant>, hash: u64) -> bool {
+        &&& post.wf() && post.same_cfg(&mid) && post.weigher == mid.weigher
+        &&& (post.frequency_sketch == mid.frequency_sketch || exists|cap: u32| post.frequency_sketch == #[trigger] mid.frequency_sketch.ensured(cap))
+        &&& Self::rel_bound(mid, post, k, v, w, ts)
+        &&& (Self::case_update(mid, k) ==> Self::rel_updated(mid, post, k, w))
+        &&& (Self::case_fits(mid, k, w) ==> Self::rel_added(mid.cache@, mid.deques.probation@, mid.weighted_size as int, post, k, w, hash, 0))
+        &&& (Self::case_oversize(mid, k, w) ==> Self::rel_untouched(mid.cache@, mid.deques.probation@, mid.deques.write_order@, mid.weighted_size as int, post))
+        &&& (Self::case_admitted(mid, k, w, hash) ==> Self::rel_added(mid.cache@, mid.deques.probation@, mid.weighted_size as int, post, k, w, hash,
+                least_prefix(mid.deques.probation@, mid.cache@, w as int, 0).unwrap()))
+        &&& (Self::case_rejected(mid, k, w, hash) ==> Self::rel_untouched(mid.cache@, mid.deques.probation@, mid.deques.write_order@, mid.weighted_size as int, post))
+    }
 
     /// state in the middle of `insert`: the candidate sits in the map without list nodes
     pub open spec fn wf_except(&self, k: KeyId) -> bool {
@@ -1580,6 +1967,25 @@ where
             // C04: an oversized newcomer is never retained, and the total never grows past max(old, cap)
             old(self).max_capacity.is_some() && policy_weight > old(self).max_capacity.unwrap() ==> !final(self).cache@.contains_key(kid_rc(key)), //@ [C04]
             old(self).max_capacity.is_some() ==> final(self).weighted_size <= old(self).weighted_size || final(self).weighted_size <= old(self).max_capacity.unwrap(), //@ [C04]
+            // ---- the complete case analysis of the property statements (C03, C04, C12, C13) ----
+            // C03: it fits: added as most recently used, nobody removed
+            old(self).sp_fits(policy_weight) ==> //@ [C03,C12,C17]
+                Self::rel_added(old(self).cache@, old(self).deques.probation@, old(self).weighted_size as int, *final(self), kid_rc(key), policy_weight, hash, 0), //@
+            // C04: heavier than the whole cache: rejected, no resident touched
+            !old(self).sp_fits(policy_weight) && old(self).sp_oversize(policy_weight) ==> //@ [C04,C13]
+                Self::rel_untouched(old(self).cache@.remove(kid_rc(key)), old(self).deques.probation@, old(self).deques.write_order@, old(self).weighted_size as int, *final(self)), //@
+            // C12/C13: no room: admitted iff strictly more popular than the shortest sufficient LRU prefix, which is then exactly what goes
+            !old(self).sp_fits(policy_weight) && !old(self).sp_oversize(policy_weight) //@ [C12,C13]
+                && spec_admit(policy_weight as int, old(self).frequency_sketch.freq(hash) as int, old(self).deques.probation@, old(self).cache@, old(self).frequency_sketch) ==> //@
+                Self::rel_added(old(self).cache@, old(self).deques.probation@, old(self).weighted_size as int, *final(self), kid_rc(key), policy_weight, hash, //@
+                    least_prefix(old(self).deques.probation@, old(self).cache@, policy_weight as int, 0).unwrap()), //@
+            // C13: otherwise rejected and no resident is touched
+            !old(self).sp_fits(policy_weight) && !old(self).sp_oversize(policy_weight) //@ [C13]
+                && !spec_admit(policy_weight as int, old(self).frequency_sketch.freq(hash) as int, old(self).deques.probation@, old(self).cache@, old(self).frequency_sketch) ==> //@
+                Self::rel_untouched(old(self).cache@.remove(kid_rc(key)), old(self).deques.probation@, old(self).deques.write_order@, old(self).weighted_size as int, *final(self)), //@
+            // C14: an insert never records; it may only (re)size the estimator
+            final(self).frequency_sketch == old(self).frequency_sketch || exists|cap: u32| final(self).frequency_sketch == #[trigger] old(self).frequency_sketch.ensured(cap), //@ [C14]
+            final(self).weigher == old(self).weigher, //@
     {
         let ghost k = kid_rc(key); //@
         let ghost m0 = self.cache@; let ghost p0 = self.deques.probation@; let ghost wo0 = self.deques.write_order@; let ghost ttl = self.time_to_live.is_some(); //@
@@ -1598,12 +2004,12 @@ where
             );
             if self.time_to_live.is_some() {
                 deqs.push_back_wo(KeyDate::new(key, timestamp), entry);
-            }
+            } //@
             proof { //@
                 lemma_push_new(m0, p0, wo0, ttl, k, *entry, hash); //@
                 assert(m0.insert(k, *entry).dom() =~= m0.dom()); //@
                 assert(deqs.probation@.take(p0.len() as int) =~= p0); //@
-            } //@
+            }
             self.entry_count += 1;
             self.saturating_add_to_total_weight(policy_weight as u64);
 
@@ -1686,7 +2092,7 @@ where
                 );
                 if self.time_to_live.is_some() {
                     deqs.push_back_wo(KeyDate::new(key, timestamp), entry);
-                }
+                } //@
                 proof { //@
                     let n = vn.len() as int; //@
                     let m1 = rem(m0, p0, n); //@
@@ -1710,7 +2116,7 @@ where
                     lemma_wsum_same_entries(p1, rem(m0.remove(k), p0, n), m1.remove(k)); //@
                     lemma_wsum_nonneg(p1, m1.remove(k)); //@
                     lemma_wsum_bound(p1, m1.remove(k)); //@
-                } //@
+                }
 
                 self.entry_count += 1;
                 Self::saturating_sub_from_total_weight(self, victims_weight);
@@ -1740,9 +2146,30 @@ where
             // C01: the key now maps to the new value or to nothing; every other key is untouched or gone
             final(self).cache@.contains_key(kid(&key)) ==> final(self).cache@[kid(&key)].value == value, //@ [C01]
             forall|k: KeyId| #[trigger] final(self).cache@.contains_key(k) && k != kid(&key) ==> old(self).cache@.contains_key(k) && final(self).cache@[k] == old(self).cache@[k], //@ [C01,C07]
+            // the complete effect: the housekeeping prefix, then exactly one of the five cases of the property statements
+            exists|mid: Self| #[trigger] Self::rel_hk(*old(self), mid) //@ [C14]
+                && Self::rel_insert(mid, *final(self), kid(&key), value, wspec(old(self).weigher, kid(&key), value), old(self).sp_ts(), old(self).sp_hash(&key)), //@
+            // the same, case by case (for attribution of a failure to the property it breaks)
+            exists|mid: Self| #[trigger] Self::rel_hk(*old(self), mid) //@ [C01,C05,C06,C10]
+                && Self::rel_bound(mid, *final(self), kid(&key), value, wspec(old(self).weigher, kid(&key), value), old(self).sp_ts()), //@
+            exists|mid: Self| #[trigger] Self::rel_hk(*old(self), mid) //@ [C12,C10,C04]
+                && (Self::case_update(mid, kid(&key)) ==> Self::rel_updated(mid, *final(self), kid(&key), wspec(old(self).weigher, kid(&key), value))), //@
+            exists|mid: Self| #[trigger] Self::rel_hk(*old(self), mid) //@ [C03,C12,C17]
+                && (Self::case_fits(mid, kid(&key), wspec(old(self).weigher, kid(&key), value)) ==> Self::rel_added(mid.cache@, mid.deques.probation@, mid.weighted_size as int, *final(self), //@
+                    kid(&key), wspec(old(self).weigher, kid(&key), value), old(self).sp_hash(&key), 0)), //@
+            exists|mid: Self| #[trigger] Self::rel_hk(*old(self), mid) //@ [C04]
+                && (Self::case_oversize(mid, kid(&key), wspec(old(self).weigher, kid(&key), value)) ==> Self::rel_untouched(mid.cache@, mid.deques.probation@, mid.deques.write_order@, mid.weighted_size as int, *final(self))), //@
+            exists|mid: Self| #[trigger] Self::rel_hk(*old(self), mid) //@ [C12,C13]
+                && (Self::case_admitted(mid, kid(&key), wspec(old(self).weigher, kid(&key), value), old(self).sp_hash(&key)) ==> Self::rel_added(mid.cache@, mid.deques.probation@, mid.weighted_size as int, *final(self), //@
+                    kid(&key), wspec(old(self).weigher, kid(&key), value), old(self).sp_hash(&key), least_prefix(mid.deques.probation@, mid.cache@, wspec(old(self).weigher, kid(&key), value) as int, 0).unwrap())), //@
+            exists|mid: Self| #[trigger] Self::rel_hk(*old(self), mid) //@ [C13]
+                && (Self::case_rejected(mid, kid(&key), wspec(old(self).weigher, kid(&key), value), old(self).sp_hash(&key)) ==> Self::rel_untouched(mid.cache@, mid.deques.probation@, mid.deques.write_order@, mid.weighted_size as int, *final(self))), //@
     {
         let timestamp = self.evict_expired_if_needed();
+        let ghost mid0 = *self; //@
         self.evict_lru_entries();
+        let ghost mid = *self; //@
+        proof { assert(Self::rel_evict_expired(*old(self), mid0) && Self::rel_evict_lru(mid0, mid)); assert(Self::rel_hk(*old(self), mid)); } //@
         let policy_weight = weigh(&mut self.weigher, &key, &value);
         let key = Rc::new(key);
         let entry = ValueEntry::new(value, policy_weight);
@@ -1756,13 +2183,37 @@ where
             } //@
         } //@
 
+        let ghost kk = kid_rc(key); //@
+        proof { //@
+            if !m1.contains_key(kk) { //@
+                let p = mid.deques.probation@; //@
+                assert forall|i: int| 0 <= i < p.len() implies (#[trigger] p[i]).key != kk by { } //@
+                lemma_least_prefix_unrelated(p, m1, kk, entry, policy_weight as int, 0); //@
+                match least_prefix(p, m1, policy_weight as int, 0) { //@
+                    Some(n) => { //@
+                        lemma_least_prefix(p, m1, policy_weight as int, 0); //@
+                        lemma_wsum_insert_unrelated(p.take(n), m1, kk, entry); //@
+                    }, //@
+                    None => {}, //@
+                } //@
+                lemma_wsum_insert_unrelated(p.take(0), m1, kk, entry); //@
+            } //@
+        } //@
         if let Some(old_entry) = self.cache.insert(Rc::clone(&key), entry) {
             self.handle_update(key, timestamp, policy_weight, old_entry);
         } else {
             let hash = self.hash(&key);
             self.handle_insert(key, hash, policy_weight, timestamp);
+            proof { //@
+                let p = mid.deques.probation@; //@
+                match least_prefix(p, m1, policy_weight as int, 0) { //@
+                    Some(n) => { if self.cache@.contains_key(kk) { lemma_rem_insert(m1, p, n, kk, entry, self.cache@[kk]); } }, //@
+                    None => {}, //@
+                } //@
+                if self.cache@.contains_key(kk) { lemma_rem_insert(m1, p, 0, kk, entry, self.cache@[kk]); } //@
+            }
         }
-    }
+    } //@
 //@@ END
 
     // Returns (u64, u64) where (evicted_entry_count, evicted_policy_weight).
@@ -1859,7 +2310,7 @@ where
 pub mod canary {
 use vstd::prelude::*;
 use super::env::*;
-broadcast use {axiom_kid_rc, axiom_dur_nonneg, axiom_ptr_reads, axiom_rc_reads};
+broadcast use {axiom_kid_rc, axiom_dur_nonneg, axiom_ptr_reads, axiom_rc_reads, axiom_f64_mul_ok, axiom_f64_div_ok};
 pub proof fn verif_canary_unsync<K>(d: &Deque<KeyHashDate<K>>) ensures false { axiom_frozen(d); }
 }
 }
